@@ -63,3 +63,14 @@ package nsqd
 //@   modifies *
 //@   ensures[reset] d.writeFileNum == old(d.writeFileNum) + 1 && d.writePos == 0 && d.readFileNum == d.writeFileNum && d.readPos == 0
 //@        && d.nextReadFileNum == d.writeFileNum && d.nextReadPos == 0 && d.depth == 0 && d.maxBytesPerFile == old(d.maxBytesPerFile)
+
+// ---------------------------------------------------------------- goroutine confinement of the queue's positions (C09)
+// The read/write positions belong to the queue's own goroutine (ioLoop and the helpers it calls) and to the code that
+// runs before that goroutine starts (NewDiskQueue -> retrieveMetaData) or after it ended (exit): Put, ReadChan and
+// Depth only communicate with it. That is what makes the sequential step contracts below the whole story.
+//@ confined DiskQueue.readPos: DiskQueue.ioLoop, DiskQueue.readOne, DiskQueue.moveForward, DiskQueue.handleReadError, DiskQueue.skipToNextRWFile, DiskQueue.retrieveMetaData, DiskQueue.persistMetaData, DiskQueue.checkTailCorruption ; C09
+//@ confined DiskQueue.writePos: DiskQueue.ioLoop, DiskQueue.writeOne, DiskQueue.readOne, DiskQueue.moveForward, DiskQueue.handleReadError, DiskQueue.skipToNextRWFile, DiskQueue.retrieveMetaData, DiskQueue.persistMetaData, DiskQueue.checkTailCorruption ; C09
+//@ confined DiskQueue.nextReadPos: DiskQueue.ioLoop, DiskQueue.readOne, DiskQueue.moveForward, DiskQueue.handleReadError, DiskQueue.skipToNextRWFile, DiskQueue.retrieveMetaData, DiskQueue.checkTailCorruption ; C09
+//@ confined DiskQueue.readFileNum: DiskQueue.ioLoop, DiskQueue.readOne, DiskQueue.moveForward, DiskQueue.handleReadError, DiskQueue.skipToNextRWFile, DiskQueue.retrieveMetaData, DiskQueue.persistMetaData, DiskQueue.checkTailCorruption ; C09
+//@ confined DiskQueue.writeFileNum: DiskQueue.ioLoop, DiskQueue.writeOne, DiskQueue.readOne, DiskQueue.moveForward, DiskQueue.handleReadError, DiskQueue.skipToNextRWFile, DiskQueue.retrieveMetaData, DiskQueue.persistMetaData, DiskQueue.checkTailCorruption ; C09
+//@ confined DiskQueue.nextReadFileNum: DiskQueue.ioLoop, DiskQueue.readOne, DiskQueue.moveForward, DiskQueue.handleReadError, DiskQueue.skipToNextRWFile, DiskQueue.retrieveMetaData, DiskQueue.checkTailCorruption ; C09
